@@ -477,10 +477,12 @@ def ancestor_flag(ctx, rr):
         raise AnalysisError('R-ANCESTOR-FLAG: add_lru lost its flag_can_have_child_webentities parameter')
     for li, w in enumerate(loops):
         t = w.test
-        if not (isinstance(t, ast.Compare) and len(t.ops) == 1 and isinstance(t.ops[0], ast.Lt) and isinstance(t.left, ast.Name)
+        if not (isinstance(t, ast.Compare) and len(t.ops) == 1 and isinstance(t.ops[0], (ast.Lt, ast.Gt)) and isinstance(t.left, ast.Name)
                 and isinstance(t.comparators[0], ast.Name)):
             raise AnalysisError('R-ANCESTOR-FLAG: loop test of add_lru is not `index < length`')
         I, L = t.left.id, t.comparators[0].id
+        if isinstance(t.ops[0], ast.Gt):
+            I, L = L, I
         keep = lambda n, c: n in (flagp, 'can_have_child_webentities', 'write', 'node', 'read_child', 'set_child')
         rows = tables(ctx, al, stmts=w.body, iters=1, keep=keep)
         bad = []
